@@ -23,6 +23,26 @@ type Scalars struct {
 	T   time.Time
 }
 
+// Named scalar types: integers, strings, floats and booleans of a declared type.
+type Color int32
+type Label string
+type Ratio float64
+type Flag bool
+type Big int64
+type Tiny uint8
+
+type Named struct {
+	C  Color
+	L  Label
+	R  Ratio
+	F  Flag
+	B  Big
+	T  Tiny
+	Cs []Color
+	Ls []Label
+	M  map[Label]Color
+}
+
 // Small is a two-field struct used as element / nested value.
 type Small struct {
 	Name string
